@@ -31,7 +31,7 @@ PROPS = {
     "C19": {"jobs": [{"pkg": "order", "run": "^TestC19$", "checks_quick": 60000, "checks_thorough": 500000, "shards_thorough": 16}]},
 }
 
-for _pid, _q, _t in (("C02", 2500, 4000), ("C03", 2500, 4000), ("C04", 2500, 4000)):
+for _pid, _q, _t in (("C02", 2500, 4000), ("C03", 2500, 4000), ("C04", 2500, 4000), ("C05", 2500, 4000)):
     PROPS[_pid]["jobs"].append({"pkg": "conc", "run": "^Test%sConc$" % _pid, "checks_quick": _q, "checks_thorough": 4 * _t, "shards_thorough": 8})
 for _pid in ("C02", "C03"):
     PROPS[_pid]["jobs"].append({"pkg": "conc", "run": "^Test%sMulti$" % _pid, "checks_quick": 2500, "checks_thorough": 16000, "shards_thorough": 8})
